@@ -32,9 +32,9 @@ func wrapReq(r *http.Request) *ihttp.Request { return ihttp.WrapRequest(r) }
 
 func workerInit() {
 	// unbounded recursion must die quickly: with the runtime's default 1 GB limit one include cycle
-	// churns for ~40 s (the garbage collector rescans the ever deeper stack), with 16 MB it dies in well
+	// churns for ~40 s (the garbage collector rescans the ever deeper stack), with 8 MB it dies in well
 	// under a second. falco bounds its own call depth at 100, a legitimate run needs < 1 MB of stack.
-	debug.SetMaxStack(16 << 20)
+	debug.SetMaxStack(8 << 20)
 	srv := httptest.NewServer(http.HandlerFunc(func(w http.ResponseWriter, r *http.Request) {
 		w.Header().Set("Cache-Control", "max-age=3600")
 		w.Write([]byte("origin:" + r.URL.Path))
@@ -44,6 +44,10 @@ func workerInit() {
 }
 
 func main() {
+	if os.Getenv("C08_CHILD") != "" {
+		childMain()
+		return
+	}
 	if m := os.Getenv("C08_PROBE"); m != "" {
 		probe(m)
 		return
@@ -77,7 +81,7 @@ func main() {
 		MinNonTrivial: 3000,
 		CrashKey:      crashKey,
 		Finish:        finish,
-		MemLimit:      4 << 30,
+		MemLimit:      memLimit,
 	})
 }
 
